@@ -429,7 +429,7 @@ class NpIntVec:
 class ParamGetAction(Contract):
     qualname = ACT + "ParameterisedActionSpace.get_action"
     callable_by_contract = False
-    tags = {"": ("C10", "C11", "C12", "C19")}
+    tags = {"": ("C10", "C11", "C12", "C19", "C05")}
 
     def variants(self):
         return ["list", "tuple"]
@@ -524,7 +524,7 @@ class ExploitMapBounded(_MapModel):
     inline_when_concrete = True
     inline_needs_key = "e_shape"       # the real loop needs concrete table keys; otherwise the model is used
     unbounded = False
-    tags = {"": ("C11",)}
+    tags = {"": ("C11", "C19", "C12")}
     which = "e"
 
     def modifies(self, I, S):
@@ -603,7 +603,7 @@ def action_fields_ok(sig, obj, kind, addr, spec):
 class LoadActionListBounded(Contract):
     qualname = ACT + "load_action_list"
     unbounded = False
-    tags = {"": ("C11", "C05", "C12")}
+    tags = {"": ("C11", "C05", "C12", "C10", "C19")}
 
     def variants(self):
         return [f"{e}/{p}" for e in range(len(E_SHAPES)) for p in range(len(P_SHAPES))]
@@ -800,3 +800,66 @@ class EnvInit(Contract):
         out.append(("C04.steps-start-at-zero", ival(f.get("steps", -1)) == 0))
         out += [("C19." + l.split(".", 1)[1], t) for l, t in layout_installed(sig, hv_state(I))]
         return out
+
+
+# ---------------------------------------------------------------------------- Scenario.__init__ (host numbering)
+
+@loop_contract
+class ScenarioInitLoop(LoopContract):
+    qualname = SCN + "__init__"
+    ordinal = 0
+    tags = ("C09", "C19")
+
+    def snapshot(self, I, fr, seq):
+        return {}
+
+    def havoc(self, I, fr, entry, seq):
+        selfobj = fr.locals["self"]
+        selfobj.fields["host_num_map"] = SDict(2, "int", I.ctx.fresh("hnm_dom", z3.ArraySort(I_, I_, B_)),
+                                               I.ctx.fresh("hnm_val", z3.ArraySort(I_, I_, I_)), fresh=True,
+                                               label="host_num_map")
+        for v in ("host_num", "host_addr"):
+            fr.locals.pop(v, None)
+
+    def inv(self, I, fr, entry, seq, k):
+        sig = I.ext_state["sig"]
+        m = fr.locals["self"].fields["host_num_map"]
+        if isinstance(m, PyDict):
+            return [("prefix", z3.BoolVal(not m.d) if z3.is_int_value(z3.simplify(k)) and z3.simplify(k).as_long() == 0
+                     else z3.BoolVal(False))]
+        j = sig.qvar("hn")
+        return [("prefix", z3.ForAll([j], z3.Implies(z3.And(0 <= j, j < k), z3.And(
+            z3.Select(m.dom, sig.asub(j), sig.ahid(j)), z3.Select(m.val, sig.asub(j), sig.ahid(j)) == j))))]
+
+
+@contract
+class ScenarioInit(Contract):
+    qualname = SCN + "__init__"
+    callable_by_contract = False
+    bounded = False
+    tags = {"": ("C09", "C19", "C11")}
+
+    def setup(self, I, variant):
+        sig = sig_setup(I)
+        sc = sig.scenario_obj(I)           # runs the real __init__ once for the dict; run it again on a fresh object
+        obj = Obj(I.repo.cls("nasim.scenarios.scenario.Scenario"), {}, fresh=False, label="scenario-under-init")
+        S = Scope(sig=sig)
+        S.a = {"self": obj}
+        S.call_args = ([obj, sc.fields["scenario_dict"]], {"name": "scn"})
+        return S
+
+    def modifies(self, I, S):
+        return [S.a["self"]]
+
+    def ensures(self, I, S):
+        sig = S.sig
+        m = S.a["self"].fields.get("host_num_map")
+        if isinstance(m, SDict):
+            j = sig.qvar("hn")
+            ok = z3.ForAll([j], z3.Implies(z3.And(0 <= j, j < ival(sig.N)), z3.And(
+                z3.Select(m.dom, sig.asub(j), sig.ahid(j)), z3.Select(m.val, sig.asub(j), sig.ahid(j)) == j)))
+        elif isinstance(m, PyDict):
+            ok = z3.BoolVal(not sig.symbolic and list(m.d.items()) == [(a, i) for i, a in enumerate(sig.addrs)])
+        else:
+            ok = z3.BoolVal(False)
+        return [("C09.host-numbering-is-host-order", ok)]
